@@ -39,3 +39,22 @@ package consoleui
 //@   enum s in SESSIONS
 //@   input:c ui_of_session()
 //@   requires session_typed()
+
+// Properties C31 and C23: one command line processed in the disassembler mode
+// after a concrete prefix of commands; numeric arguments are arbitrary
+// strings of one or two digits. nav_lands(): the cursor is on the line the
+// property prescribes for the command (N below / above, line N, the entry
+// instruction's line, the first matching line after the cursor cyclically and
+// excluding it) and no error was printed, or the target does not exist, an
+// error was printed and the cursor is where it was. listing_fresh(): apart
+// from marks the listing is a fresh rendering of the current code (headers
+// with position number and start address, instructions in current order with
+// their text and bytes, single blank lines, recorded block starts).
+// listing_unchanged(): no line and no block start changed. command_failed():
+// an error message was printed.
+
+//@ func (*UI).processCommand
+//@   enum s in NAVSESSIONS
+//@   ensures[lands-or-fails] nav_lands()
+//@   ensures[listing-is-fresh-rendering] listing_fresh()
+//@   ensures[rejected-move-keeps-listing] command_failed() ==> listing_unchanged()
